@@ -499,14 +499,18 @@ def run_world(seed, tier, world=None, histories=None, relations=True):
     try:
         srng = random.Random(seed ^ 0x7F4A7C15)
         full = [[k] for k in ALL21]
-        sites = profile_request(calc, strain, full)
+        # on a COLD calculator (stub worlds: a fresh stub per variant), so that lines which run only once per calculator -- lazily built,
+        # cached quantities -- are among the fault points and the request that follows meets whatever the cancelled one left on the calculator
+        cold = (lambda: build_stub(world)) if world["kind"] == "stub" else (lambda: calc)
+        sites = profile_request(cold(), strain, full)
         mon.violations = []
         keys_ = sorted(sites)
         for site in srng.sample(keys_, min(len(keys_), 12 if tier == "quick" else 60)):
-            aborted_request(calc, strain, full, sites[site])
+            cc = cold()
+            aborted_request(cc, strain, full, sites[site])
             mon.violations = []
             h = [[k] for k in srng.sample(ALL21, srng.choice([1, 2, 5]))]
-            keys, iso, ad, tl = run_request(calc, strain, h)
+            keys, iso, ad, tl = run_request(cc, strain, h)
             runs += 1
             mon.violations = []
             for key in keys:
